@@ -15,7 +15,6 @@ NO_PARSER = ('needs the native EdgeQL parser (Rust/pyo3 + `parsing` tables) and 
 NOT_APPLICABLE = {
     'C01': 'print/re-parse round trip: ' + NO_PARSER + '; the token-level half (literals, identifiers, parameters) is decided under C18',
     #'C02-old': 'computed migrations: ' + NO_PARSER,
-    'C07': 'access policies on every read path: needs EdgeQL->IR->SQL compilation; ' + NO_PARSER,
     #'C10-old': 'step-by-step vs direct migration: ' + NO_PARSER,
     #'C11-old': 'SDL order independence: sdl_to_ddl needs parsed SDL and std name resolution (' + NO_PARSER + '); its ordering kernel is decided under C20',
     'C12': 'inferred types vs evaluated values: needs compilation and the toy evaluator, both need the parser; ' + NO_PARSER,
@@ -141,6 +140,16 @@ check('C13', 'other',
       'argument map and descriptors. Queries are qlast trees, not text (no parser); the standard library is a transcribed fragment.',
       'Trusted: the name-resolution model in vlib/sqlscope.py. One defect repaired (hash-order dependent join conditions), known '
       'finding F19 (descriptor of `DML ?? DML`).', 'DESIGN.md section 4, C13')
+
+check('C07', 'other',
+      'bounded symbolic execution over read-only queries x policy placements x policy kinds (CrossHair + z3 choose), real compilers, '
+      'guard-flow analysis of the emitted SQL tree',
+      'For every accepted read-only query of the family and every placement (type, descendant, link target, two types) and kind (allow '
+      'select / allow all / allow + deny / select + update read) of access policies created through the real DDL path: no emitted SQL reads '
+      'the table of a protected type or of its descendants except below a SELECT that filters on that policy\'s condition (recognised by a '
+      'unique marker constant), following CTE references. Backlinks, aliases, computeds and globals are not in the family.',
+      'Trusted: the guard-flow analysis; markers identify conditions, their logical combination is not checked. Queries are qlast trees; '
+      'std is a transcribed fragment.', 'DESIGN.md section 4, C07')
 
 check('C05', 'model_checking',
       'bounded model checking of DDL histories through the real backend delta (pgsql.delta adapt / apply / generate): commands are '
